@@ -25,7 +25,8 @@ COND = "mahf::conditions::Condition"
 
 
 def mk_oracle(table):
-    """table: callee key -> function(interp, env, f, args) or constant"""
+    """table: callee key -> function(interp, env, f, args) or constant (sibling accessors of the state registry are
+    aliased by absint.chain)"""
     def oracle(interp, env, f, args, t, bb, path):
         for k in (f.get("resolved", {}).get("key"), f.get("key")):
             if k in table:
